@@ -1,7 +1,8 @@
 ---------------------------- MODULE Gen_Location ----------------------------
 EXTENDS Location, Sequences, TLC, Json
 VARIABLE done
-GInit == done = FALSE /\ h = "ipv4" /\ n = "none" /\ asknat = TRUE
-GNext == /\ ~done /\ done' = TRUE /\ UNCHANGED <<h, n, asknat>>
-         /\ \A hh \in HostKinds, nn \in Nats, a \in BOOLEAN : PrintT("SCRIPT " \o ToJson([h |-> hh, n |-> nn, asknat |-> a]))
+GInit == done = FALSE /\ h = "ipv4" /\ n = "none" /\ nh = "name" /\ asknat = TRUE
+GNext == /\ ~done /\ done' = TRUE /\ UNCHANGED <<h, n, nh, asknat>>
+         /\ \A hh \in HostKinds, nn \in Nats, k \in NatHosts, a \in BOOLEAN :
+                (nn = "none" => k = "name") => PrintT("SCRIPT " \o ToJson([h |-> hh, n |-> nn, nh |-> k, asknat |-> a]))
 =============================================================================
